@@ -109,7 +109,8 @@ def run(ctx):
             for via in ("text", "dict", "kwargs"):
                 args = {"cfg": cfg, "via": via}
                 if via == "text":
-                    args["sep"] = ctx.rng.choice([",", ", ", ";", " , "])
+                    args["sep"] = ctx.rng.choice([",", ", ", ";", " , ", ",\n", " ;\t"])
+                    args["pad"] = ctx.rng.choice(["", "", " ", "\n"])
                     args["bare_layout"] = ctx.rng.random() < 0.5
                 cases.append({"id": "c%d%s" % (i, via[0]), "kind": "c13_codec", "abs": {"kind": "codec", "cfg": cfg},
                               "args": args})
@@ -128,7 +129,7 @@ def run(ctx):
                 cfg[s] = ctx.rng.choice(VALUES[s])
         via = ctx.rng.choice(["text", "dict", "kwargs"])
         cases.append({"id": "r%d" % i, "kind": "c13_codec", "abs": {"kind": "codec", "cfg": cfg},
-                      "args": {"cfg": cfg, "via": via, "sep": ctx.rng.choice([",", ", ", ";"]),
+                      "args": {"cfg": cfg, "via": via, "sep": ctx.rng.choice([",", ", ", ";", ",\n"]), "pad": ctx.rng.choice(["", " ", "\n"]),
                                "bare_layout": ctx.rng.random() < 0.5}})
     for i, t in enumerate(UNKNOWN):
         for via in ("text", "plss", "tract"):
